@@ -1,4 +1,5 @@
 import TracklibVerif.Model.PartitionArr
+import TracklibVerif.Model.MinCircle
 import TracklibVerif.Drv.Util
 /-! Driver handler for C12. A matrix is `;`-separated rows of `,`-separated scalars; `<s>` selects the scalar:
 `q` = exact rationals `p/q`, `f` = IEEE doubles as bit patterns.
@@ -34,6 +35,11 @@ import TracklibVerif.Drv.Util
                                   `<reward matrix> <segmentation> <stops> <enc>`, a stop being `a-e:id_ini:id_end:nb_points`, `<enc>` = 1
                                   iff every circle of `circ2` encloses the observations of its segment in the plane (`enclosedB`: the
                                   hypothesis of `stops_criterion` / `find_stops_global`, checked here); exact rationals only.
+  mincircle q <eps> <points> <draws>
+                                → `minCircleOfPoints` (`Model/MinCircle.lean`): `<points>` rows `x,y,z`, `<draws>` the values behind
+                                  the successive `random.randint` calls (`draws[k % len]`, reduced modulo `len(P)` by the model).
+                                  Reply `none` | `random` | `stuck` | `<cx> <cy> <r²> <draws made> <enc>` (`enc` = 1 iff the circle
+                                  encloses every point, `≤`); exact rationals only.
 errors: `err:index` (one row: `backward` indexes an empty table), `err:value` (no row: negative dimension). -/
 namespace TV.Drv.C12
 open TV.Partition TV.Drv
@@ -169,7 +175,27 @@ def runStopsD (diameter duration ds : Rat) (track resampled circ circA cxs cys :
         s!"{showListList showRat mat} {showList toString seg} {joinWith "," items} {showBool enc}"
   | _, _ => "bad-request"
 
+def mincircle (args : List String) : String :=
+  match args with
+  | [s, eps, pts, draws] =>
+    if s != "q" then "bad-request"
+    else match rat? eps, ratListList? pts, natList? draws with
+      | some e, some rows, some dr =>
+        if dr.isEmpty then "bad-request" else
+        match rows.mapM (fun r => match r with | [x, y, z] => some (TV.MinCircle.Pt.mk x y z) | _ => none) with
+        | none => "bad-request"
+        | some P =>
+          let a := dr.toArray
+          match TV.MinCircle.minCircleOfPoints e (fun k => a[k % a.size]!) P with
+          | (.none, _) => "none"
+          | (.random, _) => "random"
+          | (.stuck, _) => "stuck"
+          | (.circ c, k) => s!"{showRat c.cx} {showRat c.cy} {showRat c.r2} {k} {showBool (TV.MinCircle.encloses c P)}"
+      | _, _, _ => "bad-request"
+  | _ => "bad-request"
+
 def handle (cmd : String) (args : List String) : String :=
+  if cmd == "mincircle" then mincircle args else
   match args with
   | [s, mat] =>
     if cmd != "matrix" then "bad-request"
